@@ -59,7 +59,10 @@ def build(reg):
 
     # ---- PackageMatcher.touch
     RID = OpaqueT('ResultId')
-    reg.classes[PM] = ClassSpec(PM, {'env': DictT(STR, OptT(VAL)), 'tools': DictT(STR, OptT(RID)), 'sandbox': OptT(RID), 'packageName': STR,
+    # the matcher records for every touched key its value OR None ("was not set"): a key with value None is still a key,
+    # so the dictionaries map to wrapper sorts (an Optional value type would conflate "None" with "absent key")
+    VALN = OpaqueT('EnvValueOrNone'); RIDN = OpaqueT('ResultIdOrNone')
+    reg.classes[PM] = ClassSpec(PM, {'env': DictT(STR, VALN), 'tools': DictT(STR, RIDN), 'sandbox': OptT(RID), 'packageName': STR,
                                      'states': OpaqueT('States'), 'corePackage': OpaqueT('CorePackage'), 'subTreePackages': OpaqueT('SubTree')})
     def env2(eng, st): return eng.fresh(st, ObjT(ENV), 'inputEnv')
     def tools2(eng, st): return eng.fresh(st, ObjT(ENV), 'inputTools')
@@ -71,12 +74,65 @@ def build(reg):
             return z3.And(new_e.touched.len() == old_e.touched.len(),
                           z3.ForAll([j, x], z3.Implies(z3.And(0 <= j, j < old_e.touched.len()),
                                     z3.Select(list_get(TS, new_e.touched.z, j), x) == z3.Or(z3.Select(list_get(TS, old_e.touched.z, j), x), has(x)))))
-        return z3.And(grew(n.inputEnv, o.inputEnv, keys_of(o.self.env.z, OptT(VAL))), grew(n.inputTools, o.inputTools, keys_of(o.self.tools.z, OptT(RID))))
+        return z3.And(grew(n.inputEnv, o.inputEnv, keys_of(o.self.env.z, VALN)), grew(n.inputTools, o.inputTools, keys_of(o.self.tools.z, RIDN)))
     units.append(Unit(FI, 'PackageMatcher.touch', {'self': ObjT(PM), 'inputEnv': env2, 'inputTools': tools2}, 'C04',
         requires=lambda s: [('len', z3.And(s.inputEnv.touched.len() >= 0, s.inputTools.touched.len() >= 0))],
         ensures=[('cache-hit-propagates-env-keys-and-tool-names', pm_touch_post)], modifies=['inputEnv.touched', 'inputTools.touched'],
         note='on a memo hit the keys the cached package depended on are recorded on the caller as well'))
-    units += [Watch(FI, 'PackageMatcher.matches', 'memo lookup: env, tools, sandbox, states, package name must agree'), Watch(FI, 'PackageMatcher.__init__', 'snapshot of the touched keys'),
+    # ---- PackageMatcher.matches: the memo lookup answers True exactly if every recorded key agrees
+    TOOLV = OpaqueT('ToolValue'); RID_OF = z3.Function('TOOL_resultId', sort_of(TOOLV), sort_of(RID)); SBV = OpaqueT('SandboxValue'); SB_RID = z3.Function('SANDBOX_resultId', sort_of(SBV), sort_of(RID))
+    TENV = 'bob.stringparser.Env#tools'       # the tools environment: same class, values are tools
+    reg.attr_models['ToolValue.resultId'] = lambda e, st, b, n: [(st, V(RID, RID_OF(b.z)))]
+    reg.attr_models['SandboxValue.resultId'] = lambda e, st, b, n: [(st, V(RID, SB_RID(b.z)))]
+    reg.always_truthy = set(getattr(reg, 'always_truthy', ())) | {'ToolValue', 'SandboxValue'}
+    TDATA = DictT(STR, TOOLV); EDATA = DictT(STR, VAL)
+    ENVI = OpaqueT('InputEnv'); TOOLI = OpaqueT('InputTools')
+    E_DATA = z3.Function('InputEnv_data', sort_of(ENVI), sort_of(EDATA)); T_DATA = z3.Function('InputTools_data', sort_of(TOOLI), sort_of(TDATA))
+    OV = OptT(VAL); OR_ = OptT(RID); OT = OptT(TOOLV)
+    V2N = z3.Function('value_or_none', sort_of(OV), sort_of(VALN)); R2N = z3.Function('resultid_or_none', sort_of(OR_), sort_of(RIDN))
+    def inj():
+        a, b = z3.Consts('v2a v2b', sort_of(OV)); c, d = z3.Consts('r2a r2b', sort_of(OR_))
+        return [z3.ForAll([a, b], z3.Implies(V2N(a) == V2N(b), a == b), patterns=[z3.MultiPattern(V2N(a), V2N(b))]),
+                z3.ForAll([c, d], z3.Implies(R2N(c) == R2N(d), c == d), patterns=[z3.MultiPattern(R2N(c), R2N(d))])]
+    reg.axioms['always:value-or-none-embedding-is-injective'] = inj
+    # Env.get at the call sites of matches(): value of the key or None (the touch effect is the subject of the Env.get unit above)
+    reg.models['InputEnv.get'] = lambda e, st, a, kw, n: [(st, V(VALN, V2N(z3.Select(E_DATA(a[0].z), a[1].z))))]
+    reg.models['InputTools.get'] = lambda e, st, a, kw, n: [(st, V(OT, z3.Select(T_DATA(a[0].z), a[1].z)))]
+    reg.pure_names |= {'InputEnv.get', 'InputTools.get'}
+    def eq_hook(e, st, a, b):
+        for x, y in ((a, b), (b, a)):
+            if x.t == RIDN:
+                if y.t == RID: return x.z == R2N(opt_some(OR_, y.z))
+                if y.t == NONE: return x.z == R2N(opt_none(OR_))
+                if y.t == OR_: return x.z == R2N(y.z)
+        return None
+    reg.eq_hook = eq_hook
+    def rid_in(tin, kk): return z3.If(opt_is_none(OT, z3.Select(tin, kk)), opt_none(OR_), opt_some(OR_, RID_OF(opt_val(OT, z3.Select(tin, kk)))))
+    OVN = OptT(VALN); ORN = OptT(RIDN)
+    def agree(o):
+        me = o.self; k = z3.Const(fresh_name('mk'), z3.StringSort())
+        envd = me.env.z; toold = me.tools.z
+        ein = E_DATA(o.inputEnv.z); tin = T_DATA(o.inputTools.z)
+        env_ok = z3.ForAll([k], z3.Implies(z3.Not(opt_is_none(OVN, z3.Select(envd, k))), opt_val(OVN, z3.Select(envd, k)) == V2N(z3.Select(ein, k))))
+        tools_ok = z3.ForAll([k], z3.Implies(z3.Not(opt_is_none(ORN, z3.Select(toold, k))), opt_val(ORN, z3.Select(toold, k)) == R2N(rid_in(tin, k))))
+        sb = o.inputSandbox
+        sb_in = z3.If(opt_is_none(sb.t, sb.z), opt_none(OR_), opt_some(OR_, SB_RID(opt_val(sb.t, sb.z)))) if isinstance(sb.t, OptT) else opt_none(OR_)
+        return env_ok, tools_ok, me.sandbox.z == sb_in, me.states.z == o.inputStates.z, me.packageName.z == o.packageName.z
+    def m_post(o, n, r):
+        return r.z == z3.And(*agree(o))
+    def m_loop_env(cur, old, k, L):
+        IT = TupleT(STR, VALN); LT = ListT(IT); i = z3.Int(fresh_name('mi')); ein = E_DATA(old.inputEnv.z)
+        return [('items-so-far-agree', z3.ForAll([i], z3.Implies(z3.And(0 <= i, i < k), tup_get(IT, list_get(LT, L, i), 1) == V2N(z3.Select(ein, tup_get(IT, list_get(LT, L, i), 0)))), patterns=[list_get(LT, L, i)])),
+                ('frame', z3.And(cur.self.env.z == old.self.env.z, cur.self.tools.z == old.self.tools.z))]
+    def m_loop_tools(cur, old, k, L):
+        IT = TupleT(STR, RIDN); LT = ListT(IT); i = z3.Int(fresh_name('ti')); tin = T_DATA(old.inputTools.z)
+        return [('items-so-far-agree', z3.ForAll([i], z3.Implies(z3.And(0 <= i, i < k), tup_get(IT, list_get(LT, L, i), 1) == R2N(rid_in(tin, tup_get(IT, list_get(LT, L, i), 0)))), patterns=[list_get(LT, L, i)])),
+                ('env-agrees', agree(old)[0]), ('frame', z3.And(cur.self.env.z == old.self.env.z, cur.self.tools.z == old.self.tools.z))]
+    units.append(Unit(FI, 'PackageMatcher.matches', {'self': ObjT(PM), 'inputEnv': ENVI, 'inputTools': TOOLI, 'inputStates': OpaqueT('States'), 'inputSandbox': OptT(SBV), 'packageName': STR}, 'C04',
+        ensures=[('true-exactly-if-every-recorded-env-key-tool-sandbox-state-and-the-name-agree', m_post)], result=BOOL,
+        loops={1: LoopSpec(inv=m_loop_env), 2: LoopSpec(inv=m_loop_tools)}, locals_types={'match': OptT(TOOLV)},
+        note='memo lookup decision'))
+    units += [Watch(FI, 'PackageMatcher.__init__', 'snapshot of the touched keys'),
               Watch(FI, 'Recipe.prepare', 'memo block, untracked bulk reads followed by explicit touch (400 lines, outside the verified subset)'),
               Watch(FI, 'RecipeSet.generatePackages', 'cache key: Bob source hash, file digests, root env, sandbox flag'), Watch(FI, 'YamlCache.loadYaml', 'stat keyed YAML cache'),
               Watch('pym/bob/pathspec.py', 'PkgGraphNode.init', 'query graph cache keyed by the package cache key'),
